@@ -93,12 +93,36 @@ def check(rep, tier, seed):
     for l, a, e in zip(inv, impl[len(lines):], inv_expect):
         if a != e:
             bad.append((l, a, f"reference to an object never introduced: expected {e}"))
+    # the same graphs inside an evolved derived record (real macro): title, root, root again in a second chunk. The
+    # markers and ids must travel through the record writer's chunk buffers: record = 01 size(c0) size(c1) c0 c1 with
+    # c0 = "t" ++ G and c1 = the back-reference, G and the back-reference being the top-level encodings checked above
+    def vi(v):
+        return vu(((v << 1) ^ (v >> 31)) & 0xffffffff)
+    elines = ["ge" + l[1:] for l in lines[:: (3 if tier == "quick" else 1)]]
+    egraphs = graphs[:: (3 if tier == "quick" else 1)]
+    eimpl = C.run_sharded(harness, "graph", elines, wd, "embedded")
+    for (nodes, root), l, a in zip(egraphs, elines, eimpl):
+        parts = a.split(" ; ")
+        if len(parts) != 3 or not parts[0].startswith("ok "):
+            bad.append((l, a, "graph inside an evolved record: encoding failed"))
+            continue
+        g_hex, b2_hex = parts[1].split(" ")
+        c0 = bytes.fromhex("0274") + bytes.fromhex(g_hex)
+        c1 = bytes.fromhex(b2_hex)
+        want_bytes = (b"\x01" + vi(len(c0)) + vi(len(c1)) + c0 + c1).hex()
+        nsfx = {"-": 0, "00": 1, "0102": 2}[l.rsplit(" ", 1)[1]]
+        want_dec = f"ok 74 0 0 | {show(reachable_canon(nodes, root))} | {nsfx}"
+        if parts[0] != "ok " + want_bytes:
+            bad.append((l, a, "graph inside an evolved record: the reference markers are not where the record layout puts them"))
+        elif parts[2] != want_dec:
+            bad.append((l, a, "graph inside an evolved record: shape or sharing lost"))
+    rep.coverage["embedded_in_evolved_record"] = len(elines)
     C.proof_coverage(rep, ob, "C10")
     sizes = {}
     for nodes, _ in graphs:
         sizes[len(nodes)] = sizes.get(len(nodes), 0) + 1
     rep.coverage.update({
-        "evaluations": len(lines) + len(inv), "distinct_nontrivial": len(set(lines)),
+        "evaluations": len(lines) + len(inv) + len(elines), "distinct_nontrivial": len(set(lines)),
         "rule": "ALL rooted digraphs with <= 3 nodes and out-degree <= 2 (ordered edge lists incl. self-loops, parallel "
                 "edges, back-edges; equal labels so that identity differs from value), sampled 4-node graphs, random graphs "
                 "up to 40 nodes; encoded by a codec over Rc<Node> built on store_ref_or_object / try_read_ref / store_ref "
